@@ -25,20 +25,20 @@ def run(rep):
     obls += [(rounding.rounding, (m, k, -50, 75, 1500)) for m in ("None", "SpecialRounding") for k in ("Fajr", "Shurooq", "Isha")]
     results = base.run_obligations(rep, obls)
     cands = [c for x in results for c in x["cands"]]
-    if cands:
+    if cands or any(x["inconclusive"] for x in results):
         from . import c11, c01
         c11.confirm_rounding(rep, results)
         c01.confirm_jd(rep, results) if any(x["cands"] for x in results if x["name"].startswith("JulianDay")) else None
         a = pp.confirm_kadj(rep, results, "C05")
         kres = [x for x in results if x["name"].startswith(("order", "get_fajr", "get_asr"))]
-        if any(x["cands"] for x in kres):
+        if any((x["cands"] or x["inconclusive"]) for x in kres):
             kp.confirm(rep, kres, WANT | {"asr"}, 60)
         if not rep.violations:
             from .. import replay
             outs = replay.run([pp.api_case(30.0, 31.0, 2.0, "2023-03-21", "Isna", "None")])
             if "times" in outs[0] and len(outs[0]["times"]) != 7:
                 rep.violation("seven-entries", "prayer_times_dt returns %d entries" % len(outs[0]["times"]), pp.api_case(30.0, 31.0, 2.0, "2023-03-21", "Isna", "None"), outs[0])
-        if not rep.violations:
+        if not rep.violations and cands:
             rep.inconclusive.append("solver counterexamples were not reproduced natively; first: %r" % (cands[0],))
     rep.samples = [{"obligation": o["name"], "status": o["status"], "paths": o.get("paths")} for o in rep.obligations[:6]]
 
